@@ -20,7 +20,7 @@ Proof. induction frame as [|x fr IH]; intros [|d dcl] L Hf Hd; try discriminate;
   rewrite rand_byte_xor by assumption. f_equal. rewrite <- seq_shift, map_map. cbn [nth].
   apply IH; [cbn in L; lia | assumption | assumption]. Qed.
 
-Lemma dc_is_spec : C.dc = dc_bytes.
+Lemma dc_is_spec : ConstsModulator.dc = dc_bytes.
 Proof. reflexivity. Qed.
 Lemma dc_bytes_ok : all_bytes dc_bytes.
 Proof. apply Forall_forall. intros x Hx. apply N.ltb_lt.
@@ -143,7 +143,7 @@ Lemma lich_word_spec k res tmp : (k < 4)%nat -> all_bytes res -> length res = 12
   bytes_bits (lich_word k res tmp) = copy_at (bytes_bits res) (24 * k) (golay24_bits tmp)
   /\ all_bytes (lich_word k res tmp) /\ length (lich_word k res tmp) = 12%nat.
 Proof. intros Hk Hr Lr Ht. unfold lich_word.
-  assert (E : nth k C.lich_ranges (0%nat, 0%nat) = ((24 * k)%nat, (24 * k + 24)%nat) /\ nth k C.lich_test_bits 0 = 23).
+  assert (E : nth k ConstsModulator.lich_ranges (0%nat, 0%nat) = ((24 * k)%nat, (24 * k + 24)%nat) /\ nth k ConstsModulator.lich_test_bits 0 = 23).
   { destruct k as [|[|[|[|k]]]]; try lia; split; reflexivity. }
   destruct E as [-> ->]. replace (24 * k + 24 - 24 * k)%nat with 24%nat by lia.
   rewrite lich_word_fold, word_bits_is_spec by exact Ht.
@@ -169,10 +169,10 @@ Proof. intros Hs Hn.
   change (u16 (N.lor (N.shiftl s0 4) (N.land (N.shiftr s1 4) 15))) with (wordA s0 s1).
   change (u16 (N.lor (N.shiftl (N.land s1 15) 8) s2)) with (wordB s1 s2).
   change (u16 (N.lor (N.shiftl s3 4) (N.land (N.shiftr s4 4) 15))) with (wordA s3 s4).
-  assert (Esh : N.shiftl n C.lich_segnum_shift = 32 * n)
-    by (change C.lich_segnum_shift with 5; rewrite N.shiftl_mul_pow2; apply N.mul_comm).
+  assert (Esh : N.shiftl n ConstsModulator.lich_segnum_shift = 32 * n)
+    by (change ConstsModulator.lich_segnum_shift with 5; rewrite N.shiftl_mul_pow2; apply N.mul_comm).
   rewrite Esh. change (u16 (N.lor (N.shiftl (N.land s4 15) 8) (32 * n))) with (wordB s4 (32 * n)).
-  destruct (uninit_ok C.lich_segment_len) as [U0 UL]. change C.lich_segment_len with 12%nat in *.
+  destruct (uninit_ok ConstsModulator.lich_segment_len) as [U0 UL]. change ConstsModulator.lich_segment_len with 12%nat in *.
   destruct (lich_word_spec 0 _ (wordA s0 s1) ltac:(lia) U0 UL LA1) as [E0 [A0 L0]].
   destruct (lich_word_spec 1 _ (wordB s1 s2) ltac:(lia) A0 L0 LB1) as [E1 [A1 L1]].
   destruct (lich_word_spec 2 _ (wordA s3 s4) ltac:(lia) A1 L1 LA2) as [E2 [A2 L2]].
